@@ -3,6 +3,7 @@ package c08
 
 import (
 	"fmt"
+	"slices"
 	"testing"
 
 	"pgregory.net/rapid"
@@ -47,6 +48,16 @@ type Call struct {
 type Case struct {
 	Spec  iters.Spec `json:"spec"`
 	Calls []Call     `json:"calls"`
+	// Rewound-after-mutation cases (Stale): Pre is driven on the iterator first,
+	// then Adds2/Rems2 are applied to the container, then Calls — which start with
+	// one of the absolute jumps Begin/End/First/Last ("resets the iterator to its
+	// initial state", "moves the iterator to the first element", ...) — are driven
+	// on the SAME iterator against the container's new sequence.  The library's own
+	// tests use iterators this way (made on an empty container, filled, rewound).
+	Stale bool   `json:"stale,omitempty"`
+	Pre   []Call `json:"pre,omitempty"`
+	Adds2 []int  `json:"adds2,omitempty"`
+	Rems2 []int  `json:"rems2,omitempty"`
 }
 
 func check(c Case) (pbt.Info, error) {
@@ -65,87 +76,108 @@ func check(c Case) (pbt.Info, error) {
 	}
 	moves, reversalAtSentinel, restartAtEnd := 0, false, false
 	lastDir := 0
-	for i, call := range c.Calls {
-		var got, want bool
-		hasRet := true
-		dir := 0
-		switch call.C {
-		case "next":
-			got = cur.F.Next()
-			if p < n {
-				p++
-			}
-			dir = 1
-		case "prev":
-			got = cur.R.Prev()
-			if p > -1 {
-				p--
-			}
-			dir = -1
-		case "begin":
-			if p >= n-1 {
-				restartAtEnd = true
-			}
-			cur.F.Begin()
-			p = -1
-			hasRet = false
-		case "end":
-			cur.R.End()
-			p = n
-			hasRet = false
-		case "first":
-			if p >= n-1 {
-				restartAtEnd = true
-			}
-			got = cur.F.First()
-			p = min(0, n)
-			if n == 0 {
-				p = 0 // Begin then Next on an empty container: position n == 0
-			}
-		case "last":
-			got = cur.R.Last()
-			p = n - 1
-		case "nextto":
-			f := call.P.f()
-			got = cur.F.NextTo(f)
-			q := p + 1
-			for q < n && !f(seq[q].K, seq[q].V) {
-				q++
-			}
-			p = min(q, n)
-			dir = 1
-		case "prevto":
-			f := call.P.f()
-			got = cur.R.PrevTo(f)
-			q := p - 1
-			for q >= 0 && !f(seq[q].K, seq[q].V) {
-				q--
-			}
-			p = max(q, -1)
-			dir = -1
-		default:
-			return info, fmt.Errorf("bad call %q", call.C)
-		}
-		want = p >= 0 && p < n
-		if hasRet && got != want {
-			return info, fmt.Errorf("%s n=%d call %d %s: returned %v, cursor model is at position %d (want %v)", c.Spec.Kind, n, i, call.C, got, p, want)
-		}
-		if want && hasRet {
-			if k, v := cur.Pos(), cur.F.Value(); k != seq[p].K || v != seq[p].V {
-				what := "Index()"
-				if iters.Keyed(c.Spec.Kind) {
-					what = "Key()"
+	drive := func(calls []Call, phase string) error {
+		for i, call := range calls {
+			var got, want bool
+			hasRet := true
+			dir := 0
+			switch call.C {
+			case "next":
+				got = cur.F.Next()
+				if p < n {
+					p++
 				}
-				return info, fmt.Errorf("%s n=%d call %d %s: at position %d %s/Value() = (%d,%d), sequence has (%d,%d)", c.Spec.Kind, n, i, call.C, p, what, k, v, seq[p].K, seq[p].V)
+				dir = 1
+			case "prev":
+				got = cur.R.Prev()
+				if p > -1 {
+					p--
+				}
+				dir = -1
+			case "begin":
+				if p >= n-1 {
+					restartAtEnd = true
+				}
+				cur.F.Begin()
+				p = -1
+				hasRet = false
+			case "end":
+				cur.R.End()
+				p = n
+				hasRet = false
+			case "first":
+				if p >= n-1 {
+					restartAtEnd = true
+				}
+				got = cur.F.First()
+				p = min(0, n)
+				if n == 0 {
+					p = 0 // Begin then Next on an empty container: position n == 0
+				}
+			case "last":
+				got = cur.R.Last()
+				p = n - 1
+			case "nextto":
+				f := call.P.f()
+				got = cur.F.NextTo(f)
+				q := p + 1
+				for q < n && !f(seq[q].K, seq[q].V) {
+					q++
+				}
+				p = min(q, n)
+				dir = 1
+			case "prevto":
+				f := call.P.f()
+				got = cur.R.PrevTo(f)
+				q := p - 1
+				for q >= 0 && !f(seq[q].K, seq[q].V) {
+					q--
+				}
+				p = max(q, -1)
+				dir = -1
+			default:
+				return fmt.Errorf("bad call %q", call.C)
+			}
+			want = p >= 0 && p < n
+			if hasRet && got != want {
+				return fmt.Errorf("%s n=%d "+phase+"call %d %s: returned %v, cursor model is at position %d (want %v)", c.Spec.Kind, n, i, call.C, got, p, want)
+			}
+			if want && hasRet {
+				if k, v := cur.Pos(), cur.F.Value(); k != seq[p].K || v != seq[p].V {
+					what := "Index()"
+					if iters.Keyed(c.Spec.Kind) {
+						what = "Key()"
+					}
+					return fmt.Errorf("%s n=%d "+phase+"call %d %s: at position %d %s/Value() = (%d,%d), sequence has (%d,%d)", c.Spec.Kind, n, i, call.C, p, what, k, v, seq[p].K, seq[p].V)
+				}
+			}
+			if dir != 0 {
+				moves++
+				if lastDir != 0 && dir != lastDir && (p <= 0 || p >= n-1) {
+					reversalAtSentinel = true
+				}
+				lastDir = dir
 			}
 		}
-		if dir != 0 {
-			moves++
-			if lastDir != 0 && dir != lastDir && (p <= 0 || p >= n-1) {
-				reversalAtSentinel = true
-			}
-			lastDir = dir
+		return nil
+	}
+	if c.Stale {
+		if err := drive(c.Pre, "(before the mutation) "); err != nil {
+			return info, err
 		}
+		cont.Mutate(c.Adds2, c.Rems2)
+		seq = cont.Seq()
+		n = len(seq)
+		if len(c.Calls) == 0 || !slices.Contains([]string{"begin", "end", "first", "last"}, c.Calls[0].C) {
+			return info, nil // nothing is claimed about an iterator that is not rewound after a mutation
+		}
+		moves, reversalAtSentinel, restartAtEnd, lastDir = 0, false, false, 0
+		info.Label("rewound-after-mutation:" + c.Calls[0].C)
+		if err := drive(c.Calls, "(iterator rewound after a mutation) "); err != nil {
+			return info, err
+		}
+	} else if err := drive(c.Calls, ""); err != nil {
+		return info, err
 	}
 	info.NonTrivial = n >= 1 && moves >= 3 && reversalAtSentinel
 	if iters.ForwardOnly(c.Spec.Kind) {
@@ -264,6 +296,40 @@ func gen(kind string) func(t *rapid.T) Case {
 func TestGenerated(t *testing.T) {
 	for _, kind := range iters.Kinds {
 		pbt.Run(t, pbt.Target[Case]{Name: kind, Checks: 25000, Gen: gen(kind), Check: check})
+	}
+}
+
+// genStale: the iterator is made first (possibly on an empty container), walked,
+// the container is then changed, and the same iterator is rewound with an absolute
+// jump and walked again.
+func genStale(kind string) func(t *rapid.T) Case {
+	g := gen(kind)
+	fwdOnly := iters.ForwardOnly(kind)
+	return func(t *rapid.T) Case {
+		c := g(t)
+		c.Stale = true
+		if rapid.IntRange(0, 3).Draw(t, "made-on-empty") == 0 {
+			c.Spec.Adds, c.Spec.Rems, c.Spec.At = nil, nil, nil
+		}
+		c.Pre = g(t).Calls
+		c.Adds2 = rapid.SliceOfN(rapid.IntRange(0, 30), 0, 12).Draw(t, "adds2")
+		c.Rems2 = rapid.SliceOfN(rapid.IntRange(0, 30), 0, 6).Draw(t, "rems2")
+		if rapid.IntRange(0, 4).Draw(t, "same-size") == 0 && len(c.Adds2) > 0 {
+			// as many leave as arrive: caches keyed on the size stay "valid"
+			c.Rems2 = slices.Clone(c.Spec.Adds[:min(len(c.Spec.Adds), len(c.Adds2))])
+		}
+		jumps := []string{"begin", "first", "end", "last"}
+		if fwdOnly {
+			jumps = jumps[:2]
+		}
+		c.Calls = append([]Call{{C: jumps[rapid.IntRange(0, len(jumps)-1).Draw(t, "jump")]}}, c.Calls...)
+		return c
+	}
+}
+
+func TestRewoundAfterMutation(t *testing.T) {
+	for _, kind := range iters.Kinds {
+		pbt.Run(t, pbt.Target[Case]{Name: kind + "/rewound-after-mutation", Checks: 6000, Gen: genStale(kind), Check: check})
 	}
 }
 
